@@ -939,8 +939,10 @@ class Response(object):
         headers = self.headers
 
         self.status = '%s %s' % (code, reason)
+        # The reason phrase goes through the same encoding and
+        # control-character removal as every other header item.
         self.output_status = ntob(str(code), 'ascii') + \
-            b' ' + headers.encode(reason)
+            b' ' + headers.encode_header_item(reason)
 
         if self.stream:
             # The upshot: wsgiserver will chunk the response if
@@ -965,15 +967,14 @@ class Response(object):
         # Transform our header dict into a list of tuples.
         self.header_list = h = headers.output()
 
-        cookie = self.cookie.output()
-        if cookie:
-            for line in cookie.split('\r\n'):
-                name, value = line.split(': ', 1)
-                if isinstance(name, str):
-                    name = name.encode('ISO-8859-1')
-                if isinstance(value, str):
-                    value = headers.encode(value)
-                h.append((name, value))
+        # One Set-Cookie header per morsel (same order as cookie.output()).
+        # Encode them like the other header items so that a CR or LF in
+        # a cookie attribute can neither survive nor start a new header.
+        for _, morsel in sorted(self.cookie.items()):
+            h.append(tuple(map(
+                headers.encode_header_item,
+                ('Set-Cookie', morsel.OutputString()),
+            )))
 
 
 class LazyUUID4(object):
